@@ -296,7 +296,13 @@ def rule_weights(ctx):
     promoted = []
     for nd in (True, False):
         ev = run(ctx, fw, oracle=lambda a, st, nd=nd: (nd if (a[0] == 'cmp' and a[1] == '<' and a[2] == const(1) and a[3][0] == 'attr' and a[3][2] == 'ndim') else None))
-        for p in ret_paths(ev):
+        from ..rules import alternatives as _alts
+
+        class _Alt(object):
+            # one resolution of the conditional expressions of a returned value (`x.astype(float) if <integer kind> else x`), read like the two branches of an if
+            def __init__(self, p_, value, guards):
+                self.value, self.guards, self.node = value, tuple(p_.guards) + tuple(guards), p_.node
+        for p in [_Alt(p_, v_, g_) for p_ in ret_paths(ev) for v_, g_ in _alts(p_.value, into_comps=False)]:
             a = ('call', ('attr', ARR, 'swapaxes'), (P_('axis'), const(0)), ()) if nd else ARR
             vl, vr = ('sub', a, P_('lhs_idx')), ('sub', a, P_('rhs_idx'))
             base = None
